@@ -40,7 +40,7 @@ CHECKS = {
  "C20": dict(
    engine="simkit+h-cache",
    category="fault_enumeration",
-   text="The real cli/src/config.rs runs over an in-memory POSIX-like file system, a virtual clock and a scripted HTTP transfer. Seeded histories of process runs (start-up, full load(), --fetch-currency) from every prior cache state, every server behaviour (complete, cut after k bytes by close or reset, stall, 3xx/4xx/5xx, refused, DNS), file-system errors at chosen calls and clock jumps; for most histories the kill point is swept over every file-system/transfer step of one run (and inside each write). After every run the cache bytes must be the previous bytes or the complete body of a 200 response that completed; failed refreshes must fall back to the stale cache and still start; completed refreshes must be visible to this and the next start; every run terminates within the transfer timeout. Every state the cache path goes through during a run is held to the same previous-or-complete-new rule (what a reader or a kill at that instant finds). One history in six adds a second rink process on the same cache directory, both running the real code on their own threads one at a time with a seeded switch decision before every file-system/transfer step (advisory file locks included).",
+   text="The real cli/src/config.rs runs over an in-memory POSIX-like file system, a virtual clock and a scripted HTTP transfer. Seeded histories of process runs (start-up, full load(), --fetch-currency) from every prior cache state, every server behaviour (complete, cut after k bytes by close or reset, stall, 3xx/4xx/5xx, refused, DNS), file-system errors at chosen calls and clock jumps; for most histories the kill point is swept over every file-system/transfer step of one run (and inside each write). After every run the cache bytes must be the previous bytes or the complete body of a 200 response that completed; failed refreshes must fall back to the stale cache and still start; completed refreshes must be visible to this and the next start; every run terminates within the transfer timeout. Every state the cache path goes through during a run is held to the same previous-or-complete-new rule (what a reader or a kill at that instant finds). One history in six adds a second rink process on the same cache directory, both running the real code on their own threads one at a time with a seeded switch decision before every file-system/transfer step (advisory file locks included). One full-load run in three is a start-up with sandboxing enabled: the real parent.rs/child.rs/frame.rs between rink and a child that runs the real config::load again before its handshake, the child's stdout being the frame pipe.",
    design_ref="DESIGN.md 5.3",
    note="Trusted: the stand-ins for std::fs/curl/tempfile/dirs (behaviours listed in DESIGN.md 2.4/2.8); crash = process kill (completed operations persist, rename atomic), not power loss; one file-system or transfer step is atomic with respect to a second process.",
    technique="deterministic simulation with fault injection: crash-point sweep over FS/transfer steps of seeded histories, scripted server faults, FS error injection, seeded interleaving of two processes on one disk, history and every-instant oracle on the cache bytes"),
